@@ -197,6 +197,19 @@ class FuncVerifier(object):
     def apply_one_hint(self, st, h, hi_, site, extra):
         for _once in (0,):
             kind = h[0]
+            if kind == 'when':
+                # ('when', guard, [hints]): ghost code for the paths on which the guard is a literal of the path condition
+                g = self.spec(st, extra=extra).ev_bool(h[1])
+                ng = z3.Not(g)
+                if any(z3.eq(x, g) for x in st.pc):
+                    for j_, hh in enumerate(h[2]):
+                        try:
+                            self.apply_one_hint(st, hh, j_, '%s.hint%d' % (site, hi_), extra)
+                        except MissingSnapshot:
+                            pass
+                elif not any(z3.eq(x, ng) for x in st.pc):
+                    raise ContractError('when-guard %r is not decided by the path condition at %s' % (h[1], site))
+                continue
             if kind == 'assert_from':
                 # ('assert_from', expr, [facts]): each fact is proved from the full path condition; expr is then proved
                 # from the facts and the quantifier-free part of the path condition ONLY (a `by` clause: keeps the
@@ -775,6 +788,9 @@ class FuncVerifier(object):
             if name == getattr(n, 'target', None) and False:
                 continue
             v = st.env.get(name, Unbound('first bound inside a loop'))
+            if name in ls.locals and name in st.env and not isinstance(v, (Ref, Unbound)):
+                s.env[name] = self.fresh_value(s, name, ls.locals[name])     # declared type wins (e.g. int 1 that becomes a float)
+                continue
             if isinstance(v, Unbound) or name not in st.env:
                 t = ls.locals.get(name)
                 if t is not None:
